@@ -956,12 +956,77 @@ func (c *c14) opBackfill() {
 		}
 	}
 	c.refreshStore()
-	c.setVerifier()
+	vfail := c.setVerifier()
 	ctx, cancel := context.WithCancel(context.Background())
 	defer cancel()
 	sp.cancel = cancel
 	if t.Chance(100) {
 		sp.cancelAt = t.Range(1, 6)
+	}
+	// a state lookup that fails once: an unfaulted event that two servers
+	// send, each once, is refused from the first and must come from the second
+	flaky := ""
+	if len(bf.servers) >= 2 && t.Chance(300) {
+		count := map[string]int{}
+		clean := map[string]bool{}
+		for _, sn := range bf.servers {
+			for _, e := range bf.txns[sn].entries {
+				if e.ev != nil {
+					count[e.id()+"|"+string(sn)]++
+					if e.note == "" {
+						clean[e.id()+"|"+string(sn)] = true
+					}
+				}
+			}
+		}
+		var cands []string
+		for _, e := range bf.txns[bf.servers[0]].entries {
+			if e.ev == nil {
+				continue
+			}
+			ok := true
+			for _, sn := range bf.servers[:2] {
+				k := e.id() + "|" + string(sn)
+				if count[k] != 1 || !clean[k] {
+					ok = false
+				}
+			}
+			if ok {
+				cands = append(cands, e.id())
+			}
+		}
+		if len(cands) > 0 {
+			flaky = sim.Pick(t, cands)
+			sp.failOnce = map[string]bool{flaky: true}
+			r.Probe("backfill_state_lookup_fails_once")
+		}
+	}
+	// model: what each asked server's copy of each event is classified as
+	contract := true
+	classify := func(b *batch, e *entry) string {
+		ch := c.modelChain(e.ev)
+		at := c.modelAtState(e.ev, sp.answers[e.id()], true)
+		if !ch.contract {
+			contract = false
+		}
+		switch {
+		case b.sigBad[e.id()] != "" || vfail:
+			return "signature"
+		case !ch.ok():
+			return "auth_chain"
+		case at.err != "" || !(at.fast || at.allowed):
+			return "auth_at_state"
+		}
+		return "ok"
+	}
+	classes := map[spec.ServerName]map[string]string{}
+	for _, sn := range bf.servers {
+		classes[sn] = map[string]string{}
+		for _, e := range bf.txns[sn].entries {
+			if e.ev != nil {
+				classes[sn][e.id()] = classify(bf.txns[sn], e)
+			}
+		}
 	}
 	limit := t.Range(1, 12)
 	var got []gmsl.PDU
@@ -972,8 +1037,61 @@ func (c *c14) opBackfill() {
 		return
 	}
 	r.Logf("  RequestBackfill(limit %d, servers %d) -> %d events err=%v", limit, len(bf.servers), len(got), err != nil)
-	if nf > 0 || sp.fired {
+	if nf > 0 || sp.fired || flaky != "" {
 		r.Nontriv = true
+	}
+	if contract && !sp.fired && !c.prov.offContract {
+		// every event some asked, answering server sent in a form that passes
+		// every check is returned; no returned event failed the auth checks
+		// in every form it was sent in
+		may, must := map[string]bool{}, map[string]string{}
+		flakyPending := flaky != ""
+		for _, sn := range bf.asked {
+			if bf.fail[sn] {
+				continue
+			}
+			for _, e := range bf.txns[sn].entries {
+				if e.ev == nil {
+					continue
+				}
+				cl := classes[sn][e.id()]
+				if e.id() == flaky && flakyPending {
+					flakyPending = false
+					if cl == "ok" {
+						cl = "auth_at_state"
+					}
+				}
+				if cl == "ok" || cl == "signature" {
+					may[e.id()] = true
+				}
+				if cl == "ok" {
+					must[e.id()] = string(sn)
+				}
+			}
+		}
+		have := map[string]bool{}
+		for _, e := range got {
+			have[e.EventID()] = true
+			if !may[e.EventID()] {
+				r.Violate("C14", "backfill_returns_failing_event", "auth", "RequestBackfill returned %s although every copy the asked servers sent fails the auth checks", c.desc(e.EventID()))
+			}
+		}
+		mustIDs := make([]string, 0, len(must))
+		for id := range must {
+			mustIDs = append(mustIDs, id)
+		}
+		sort.Strings(mustIDs)
+		for _, id := range mustIDs {
+			if !have[id] {
+				sig := "plain"
+				if id == flaky {
+					sig = "refused_from_an_earlier_server"
+				}
+				r.Violate("C14", "backfill_drops_good_event", sig, "RequestBackfill did not return %s although %s sent it and it passes every check (limit %d, %d returned, asked %v)", c.desc(id), must[id], limit, len(got), bf.asked)
+			}
+		}
+	} else {
+		r.Probe("backfill_not_judged_cancelled_or_off_contract")
 	}
 	seen := map[string]bool{}
 	for _, e := range got {
